@@ -18,7 +18,7 @@ LEVEL = 'exploration'
 RULE = ('random netlist plans from the block catalogue (3-40 blocks = 5-250 leaves, registers in feedback, structural wrappers), '
         'each instantiated under identity/reverse/random permutations of block order and of wire order (all n! for n <= 5 blocks), '
         'designs with gated clock domains (wrappers whose ClockDriver enable is a poked input, a toggling register or a delayed input, holding registers and '
-        'combinational leaves fed from outside and inside the domain), reversed/shuffled inverter chains of 50-400 (and 1001) leaves, and plans with one injected loop (self, 2, n, through a wrapper, '
+        'combinational leaves fed from outside and inside the domain), reversed/shuffled inverter chains of 50-400 leaves, size classes (chains of 1001-2500 leaves and layered netlists of 3300 leaves with combinational paths deeper than 1000 leaves, in dataflow / reversed / locally shuffled / shuffled order), and plans with one injected loop (self, 2, n, through a wrapper, '
         'rewired back edge, behind a sorted prefix; through a Reg = legal); the simulator is created through getSimulator(), directly with Simulator(sys), by a Scope constructor or by a repeated getSimulator(), and clock calls are clk(n) with n = 0, 1, 2-5, 17-40; a case is (plan, block order, wire order, creation mode); '
         'non-trivial = the initial leaf list of that order is not already topological (>= 1 inverted dependency edge) '
         'or the plan is cyclic; distinct by content hash of (plan, orders)')
@@ -409,15 +409,56 @@ def run_check(run, tier, seed, shard):
                               what='%s of %d inverters: values differ from dataflow order' % (nm, n))
         run.sample(dict(kind='chain', n=n, inversions_reversed=n - 1))
 
-    # 3. the sorter's pass limit: a legal reversed chain of more than 1000 leaves
-    if shard is None or shard[0] == 0:
-        for n in ((1001,) if quick else (1001, 1200)):
-            plan = netgen.gen_chain(n, 1)
-            bids = [b['id'] for b in plan['blocks']]
-            wids = [w['id'] for w in plan['wires']]
-            r = run_order(run, plan, list(reversed(bids)), wids, [{}, {'in0': 1}], stats, dict(kind='chain', shape='reversed_chain', n=n))
-            stats['big_chains'] = stats.get('big_chains', 0) + 1
-            run.nt(stable_hash(['bigchain', n]))
+    # 3. size classes: legal netlists with thousands of leaves and combinational paths deeper than 1000 leaves, in
+    #    forward (dataflow), reversed, locally shuffled and fully shuffled instantiation order.  All must be accepted,
+    #    settle, and give the same values as the dataflow order.  (Reversed / fully shuffled orders cost the pinned
+    #    swap sorter O(n^3), so the quick tier keeps those at ~1000 leaves.)
+    big = [('chain', 1001, 'reversed_chain'), ('chain', 1200, 'forward_chain'), ('chain', 1200, 'local_shuffle_chain'),
+           ('chain', 2500, 'forward_chain'), ('layered', (1100, 3), 'forward_layered')]
+    if not quick:
+        big += [('chain', 1200, 'reversed_chain'), ('chain', 1200, 'shuffled_chain'), ('chain', 2500, 'local_shuffle_chain'),
+                ('layered', (1500, 2), 'forward_layered'), ('layered', (40, 60), 'shuffled_layered'), ('layered', (1100, 3), 'local_shuffle_layered')]
+    big_ref = {}
+    for j in shard_slice(range(len(big)), shard):
+        gen, size, shape = big[j]
+        rnd = rng(seed, 'C04', 'big', gen, size)
+        if gen == 'chain':
+            plan = netgen.gen_chain(size, 1)
+            hist = [{}, {'in0': 1}, {'in0': 0, '#n': 0}]
+        else:
+            plan = netgen.gen_layered(rnd, size[0], size[1])
+            ws = plan['inputs']
+            hist = [{i: rnd.getrandbits(1) for i in ws}, {i: rnd.getrandbits(1) for i in ws}, dict({i: rnd.getrandbits(1) for i in ws}, **{'#n': 0})]
+        bids = [b['id'] for b in plan['blocks']]
+        wids = [w['id'] for w in plan['wires']]
+        rnd2 = rng(seed, 'C04', 'bigorder', j)
+        if shape.startswith('forward'):
+            bo = bids
+        elif shape.startswith('reversed'):
+            bo = list(reversed(bids))
+        elif shape.startswith('local_shuffle'):
+            bo = netgen.local_shuffle(bids, rnd2, 40 if gen == 'chain' else size[1])
+        else:
+            bo = list(bids)
+            rnd2.shuffle(bo)
+        nleaves = len(bids)
+        key = stable_hash([gen, size])
+        if not shape.startswith('forward') and key not in big_ref:
+            # dataflow order of the same plan as the reference (cheap: one sorting pass)
+            r0 = run_order(run, plan, bids, wids, hist, stats, dict(kind='big', shape='forward_' + gen, n=nleaves))
+            if r0[0] == 'ok':
+                big_ref[key] = ('forward', r0[2])
+        r = run_order(run, plan, bo, wids, hist, stats, dict(kind='big', shape=shape, n=nleaves))
+        stats['big_netlists'] = stats.get('big_netlists', 0) + 1
+        stats['big_netlists_' + r[0]] = stats.get('big_netlists_' + r[0], 0) + 1
+        stats['max_leaves'] = max(stats.get('max_leaves', 0), nleaves)
+        run.nt(stable_hash(['big', gen, size, shape]))
+        run.sample(dict(kind='big', generator=gen, size=size, order=shape, leaves=nleaves, result=r[0], inverted_edges=r[1]))
+        if r[0] == 'ok':
+            if key in big_ref and big_ref[key][1] != r[2]:
+                run.violation('order_dependent_values', dict(when='big', perm='blocks'), dict(plan=plan, block_order=bo, wire_order=wids, inputs=hist, meta=dict(shape=shape)),
+                              what='%s of %d leaves: values differ from the %s order' % (shape, nleaves, big_ref[key][0]))
+            big_ref.setdefault(key, (shape, r[2]))
 
     # 4. rejection of combinational cycles
     n_cyc = 64 if quick else 2400
@@ -460,6 +501,8 @@ def post_merge(run, tier, seed):
                    ('created_twice', 'getSimulator() was never called twice in a row'), ('clk_calls_n0', 'clk(0) was never called'), ('clk_calls_many', 'clk(n>1) was never called')):
         if not c.get(k):
             run.inconclusive.append(why)
+    if not c.get('big_netlists'):
+        run.inconclusive.append('no netlist of more than 1000 leaves was built')
     if not c.get('fixpoint_checks_in_gated_off_domain'):
         run.inconclusive.append('no fixpoint check was made on a leaf of a gated-off clock domain')
     if c.get('gated_skipped_time'):
